@@ -200,6 +200,7 @@ class PropCheck:
         try:
             feats = getattr(self, "harness_features", None)
             runner.FEATURES = feats
+            runner.ISOLATE = bool(getattr(self, "isolate_cases", False))
             build.build_all(coq_targets=["Extract.vo"], release=self.release_too or self.tier == "thorough", features=feats)
         except build.BuildError as e:
             # the executables cannot be built: nothing is shown to hold
